@@ -14,7 +14,7 @@ CLAIMED = {
   "technique": "Coq proof (big-step characterisation of the fill loop + composition of reads); differential run model vs C; C-only API oracles",
  },
  "C09": {
-  "text": "Theorems: tree_decode.c build_tree never leaves its arrays, terminates and keeps the tree 'closed' for EVERY code-length vector and every prior tree state (uint16 and uint8 elements); read_from_tree on a closed tree stays in bounds, moves strictly forward and ends within tree_len steps for any input bits; lha_decoder_read never faults and never returns more than asked for any inner decoder. Whole-decoder theorems: null, lz5, lzs and the six lh_new instances (lhnew_never_faults for ANY callback incl. endless input; lhnew_read_returns when the input ends; params_ok facts about the regenerated constants, e.g. COPY_THRESHOLD+255 <= max_read, by vm_compute), bit reader for any callback. lh1/pm1/pm2 bodies are so far covered by the tree theorems, the correspondence and the sanitizer oracle only (proofs in progress).",
+  "text": "Theorems: tree_decode.c build_tree never leaves its arrays, terminates and keeps the tree 'closed' for EVERY code-length vector and every prior tree state (uint16 and uint8 elements); read_from_tree on a closed tree stays in bounds, moves strictly forward and ends within tree_len steps for any input bits; lha_decoder_read never faults and never returns more than asked for any inner decoder. Whole-decoder theorems: null, lz5, lzs and the six lh_new instances (lhnew_never_faults for ANY callback incl. endless input; lhnew_read_returns when the input ends; params_ok facts about the regenerated constants, e.g. COPY_THRESHOLD+255 <= max_read, by vm_compute), bit reader for any callback. pm1 and pm2 whole decoders: pm1_never_faults / pm2_never_faults (any callback, any bytes; history list stays a pair of inverse permutations of 0..255; offset-tree leaves < 8 so the shift is defined; rebuild counter never wraps; the 32 pm1 byte-decode-tree rows checked by vm_compute sweep). lh1 body is so far covered by the tree theorems, the correspondence and the sanitizer oracle only (proof in progress).",
   "note": "Array extents and table sizes regenerated from the C on every run; out-of-bounds accesses that land in valid memory are invisible to the sanitizer oracle and are covered only where a theorem exists.",
   "technique": "Coq proof of array-bounds invariants (closed-tree invariant, loop measures); grammar-aimed differential run against an ASan+bounds+null build",
  },
@@ -49,9 +49,14 @@ CLAIMED = {
   "technique": "LZHUF-transliteration round trip on the C (direct oracle) + differential run; simulation proof in progress",
  },
  "C04": {
-  "text": "Partial. Spec S_Pm.v (move-to-front with the PMarc order, pm1/pm2 serialisers incl. table re-reads in the middle of copies, wf predicates, zero-extension rule). Round-trip theorems NOT yet proved; decided on every run by the direct oracle on the C for streams from the extracted serialisers (every rebuild point x every split of a copy, every pm1 start header and width threshold +-1).",
+  "text": "Partial. Spec S_Pm.v (move-to-front with the PMarc order, pm1/pm2 serialisers incl. table re-reads in the middle of copies, wf predicates, zero-extension rule). Proved: history_list_is_mtf (the prev/next arrays of pma_common.c are the spec's move-to-front list after ANY byte sequence), build_tree_canonical (the tree builder yields the canonical prefix code of any complete length vector), pm2_roundtrip_partial (every single-segment literal-only stream < 1024 bytes with ANY well-formed code table, any trailing bytes, any read schedule decodes to its bytes). Copies, segment re-reads and pm1 round trips NOT yet proved; decided on every run by the direct oracle on the C for streams from the extracted serialisers (every rebuild point x every split of a copy, every pm1 start header and width threshold +-1).",
   "note": "The serialisers reproduce all 8 real pm1/pm2 members of the repository byte for byte.",
-  "technique": "Spec-encoder round trip on the C (direct oracle) + differential run; proofs in progress",
+  "technique": "Coq proof (MTF refinement, canonical-code tree, literal round trip); spec-encoder round trip on the C (direct oracle) + differential run for the unproved part",
+ },
+ "C07": {
+  "text": "Theorems crc16_error_superposition (CRC of corrupted data = CRC of the data xor CRC of the error pattern, any register, any length), burst16_detected / stored_member_burst16_detected (EVERY nonzero error pattern confined to 16 consecutive bits, bits numbered in the order CRC-16/ARC consumes them, changes the CRC of ANY data of any length, hence a stored member so corrupted is not reported good), verdict_crc_is_arc (the value compared with the header is CRC-16/ARC of the bytes produced, via C17). Closed under the global context. The verdict logic of lha_reader_check/extract and of the tool (t, x, exit status), and length mismatches, are decided by the oracle on the real tool: the bytes the tool delivers are measured independently (length, bitwise CRC) and its verdict must be 'good' iff they match the header.",
+  "note": "MSB-first bit numbering would make an 11-bit pattern (01 C1 C0) undetected: documented in P_CrcBurst.v as examples; the property's burst clause is read in CRC consumption order.",
+  "technique": "Coq proof (GF(2)-linearity of the table CRC + injectivity of the bit step); verdict oracle on the real tool over every single-bit flip, 16-bit bursts, length perturbations",
  },
  "C08": {
   "text": "Theorems header_parser_never_faults / archive_iteration_no_fault: for EVERY byte string, stream kind and mktime, the models of the input stream (incl. the self-extractor scan), the header parser for all four levels with every extended-header decoder, and the basic reader never perform an out-of-range access; *_returns: they return on every stream < 12 MiB (model fuel of the level-1 extended-header walk; unconditional for levels 0, 2, 3), skips return for amounts < 2^40. Decompressors: C09. lha_reader, extraction and the tool itself: sanitizer oracle and correspondence only (no theorem yet).",
